@@ -274,7 +274,13 @@ class Vector():
 		if self._fp is None:
 			if self._fp_powers is None or len(self._fp_powers) != len(self._underlying):
 				self._ensure_fp_powers()
-			self._fp = self._compute_fingerprint_full()
+			fp = self._compute_fingerprint_full()
+			# An element that is itself a vector can be written through its own
+			# handle without this vector being told: do not memoize over it.
+			for x in self._underlying:
+				if isinstance(x, Vector):
+					return fp
+			self._fp = fp
 		return self._fp
 
 	def _invalidate_fp(self) -> None:
